@@ -214,3 +214,63 @@ pub fn static_tags(world: &World, goal: usize) -> String {
     }
     t
 }
+
+/// textual test: does some `if (...)` hypothesis of the goal mention an existentially quantified name?
+pub fn hyp_mentions_unknown(goal: &str) -> bool {
+    let mut names: Vec<String> = vec![];
+    let mut rest = goal;
+    while let Some(i) = rest.find("exists<") {
+        let after = &rest[i + 7..];
+        if let Some(j) = after.find('>') {
+            for n in after[..j].split(',') {
+                let n = n.trim().trim_start_matches("const ").trim();
+                if !n.is_empty() {
+                    names.push(n.to_string());
+                }
+            }
+            rest = &after[j..];
+        } else {
+            break;
+        }
+    }
+    if names.is_empty() {
+        return false;
+    }
+    let mut rest = goal;
+    while let Some(i) = rest.find("if (") {
+        let after = &rest[i + 4..];
+        // hypothesis text up to the matching ')'
+        let mut depth = 1;
+        let mut end = after.len();
+        for (k, ch) in after.char_indices() {
+            match ch {
+                '(' => depth += 1,
+                ')' => {
+                    depth -= 1;
+                    if depth == 0 {
+                        end = k;
+                        break;
+                    }
+                }
+                _ => {}
+            }
+        }
+        let hyp = &after[..end];
+        let is_word = |c: char| c.is_alphanumeric() || c == '_';
+        for n in &names {
+            let mut from = 0;
+            while let Some(p) = hyp[from..].find(n.as_str()) {
+                let a = from + p;
+                let b = a + n.len();
+                let left_ok = a == 0 || !hyp[..a].chars().rev().next().map(is_word).unwrap_or(false);
+                let right_ok = b >= hyp.len() || !hyp[b..].chars().next().map(is_word).unwrap_or(false);
+                if left_ok && right_ok {
+                    return true;
+                }
+                from = b;
+            }
+        }
+        rest = &after[end..];
+    }
+    false
+}
